@@ -144,13 +144,39 @@ def _one_mode(u, fn, assume, exact, sign, R):
     heads = {s.start for s in loops}
     if len(heads) != 1:
         raise AnalysisBroken('CMP1: %s (%s): %d loops' % (fn.name, mode, len(heads)))
+    def positions_of(s):
+        out = set(s.B)
+        for (e, _t, st, lp) in s.rel:
+            out |= {x for x in ex.deps(e, st, lp) if x is not None}
+        if s.end[0] == 'return' and s.end[1] is not None and s.end[1][0] == 'ex':
+            out |= set(s.end[1][3])
+        elif s.end[0] == 'return' and s.end[1] is None and s.end_node is not None and s.end_node.expr is not None:
+            out |= {x for x in ex.deps(s.end_node.expr, s.st) if x is not None}
+        return out
+
+    def read_root(s, c):
+        """(root the bytes of this string are read at, how far that position moves in the segment): the cursor itself, or the cursor
+        indexed by a counter"""
+        base = s.start_root.get(c)
+        roots = {p[0] for p in positions_of(s) if p[0] == base or (isinstance(p[0], tuple) and p[0][0] == 'ix' and p[0][1] == base)}
+        if len(roots) > 1:
+            raise AnalysisBroken('CMP1: %s (%s): %s is read both directly and through a counter on the path ending at line %d' % (fn.name, mode, c, s.line))
+        r = next(iter(roots)) if roots else base
+        adv = s.adv(c)
+        if isinstance(r, tuple) and r[0] == 'ix':
+            dv = s.vals.get(r[2])
+            adv = adv + dv[1] if (adv is not None and dv is not None and dv[0] == 'd') else None
+        return r, adv
+    roots = {}
     for s in loops:
         for c in (c1, c2):
-            if any(a != 0 for a in s.constrained(c)):
+            roots[(id(s), c)] = read_root(s, c)
+            r = roots[(id(s), c)][0]
+            if any(a != 0 for (rr, a), v in s.B.items() if rr == r and v != bp.ALL) or any(p[0] == r and p[1] != 0 for p in positions_of(s)):
                 raise AnalysisBroken('CMP1: %s (%s): the path ending at line %d looks at bytes other than the current pair' % (fn.name, mode, s.line))
     rels = []
     for s in loops:
-        p, q = (s.start_root[c1], 0), (s.start_root[c2], 0)
+        p, q = (roots[(id(s), c1)][0], 0), (roots[(id(s), c2)][0], 0)
         retf = None
         if s.end[0] == 'return' and not (s.end[1] is not None and s.end[1][0] == 'k') and s.end_node is not None and s.end_node.expr is not None:
             retf = bp.pair_value(ex, s.st, s.end_node.expr, p, q)
@@ -170,7 +196,7 @@ def _one_mode(u, fn, assume, exact, sign, R):
                 if not f:
                     continue
                 if s.end[0] == 'head':
-                    outcomes.append(('next', s.adv(c1), s.adv(c2), s.line))
+                    outcomes.append(('next', roots[(id(s), c1)][1], roots[(id(s), c2)][1], s.line))
                 elif s.end[0] == 'return':
                     v = s.end[1]
                     if v is not None and v[0] == 'k':
